@@ -297,6 +297,9 @@ class ImplRun:
                 out["ksets"] = [[int(j) for j in np.argpartition(
                     cdist(imp.contexts, row[np.newaxis, :], metric=npc["metric"]).reshape(-1), npc["kk"] - 1)[:npc["kk"]]]
                     for row in c]
+                # the distances themselves (not sent to the driver): used to enumerate every valid choice of the k nearest
+                # rows when the k-th distance is tied and model and implementation disagree (model.resolve_tie)
+                out["kd"] = [cdist(imp.contexts, row[np.newaxis, :], metric=npc["metric"]).reshape(-1).tolist() for row in c]
         return out
 
     # -- labels of recorded requests
@@ -500,7 +503,7 @@ def _canon_result(result, single_expected):
     return True, [result]
 
 
-def compare_op(op, run, rec, mout, stats, ptol=1e-7):
+def compare_op(op, run, rec, mout, stats, ptol=1e-7, pending=None, only_row=None):
     """Raise Mismatch with a reason if model output `mout` and impl record `rec` differ on the
     observables.  `stats` collects ambiguity counters."""
     kind = op["op"]
@@ -554,6 +557,8 @@ def compare_op(op, run, rec, mout, stats, ptol=1e-7):
         raise Mismatch("number of results: impl %d model %d" % (len(rws), len(mout["rows"])))
     ties = mout["ties_l"]
     for i, (ir, (marm, mdict)) in enumerate(zip(rws, mout["rows"])):
+        if only_row is not None and i != only_row:
+            continue
         tie = ties[i] if i < len(ties) else False
         mvals = [(k, eval_expect(v)) for k, v in mdict]
         if kind == "pexp":
@@ -564,8 +569,8 @@ def compare_op(op, run, rec, mout, stats, ptol=1e-7):
                 raise Mismatch("row %d keys: impl %r model %r" % (i, ikeys, [k for k, _ in mvals]))
             ok = all(close(float(a), b, rtol=ptol) for a, (_, b) in zip(ir.values(), mvals))
             if not ok:
-                if tie:
-                    stats["knn_tie_skipped"] = stats.get("knn_tie_skipped", 0) + 1
+                if tie and pending is not None:
+                    pending.append(i)           # decided by model.resolve_tie over every valid tie-break
                     continue
                 raise Mismatch("row %d expectations: impl %r model %r" % (
                     i, [float(x) for x in ir.values()], [b for _, b in mvals]))
@@ -583,8 +588,8 @@ def compare_op(op, run, rec, mout, stats, ptol=1e-7):
                 if iid in near and len(near) > 1:
                     stats["argmax_near_tie_skipped"] = stats.get("argmax_near_tie_skipped", 0) + 1
                     continue
-            if tie:
-                stats["knn_tie_skipped"] = stats.get("knn_tie_skipped", 0) + 1
+            if tie and pending is not None:
+                pending.append(i)
                 continue
             raise Mismatch("row %d prediction: impl %r (id %s) model %r; model expectations %r" % (
                 i, ir, iid, marm, mvals))
